@@ -106,6 +106,27 @@ CHECKS = {
         "Trusted: fake Timer / harness-driven asyncio.sleep + inline executor; concurrency granularity is the serialisation hooks (Python level).",
         "DESIGN.md §2 C15",
     ),
+    "C09": (
+        "exploration",
+        "exhaustive over image length (thorough: every length 1..32768; quick: all 16/128-byte boundary neighbourhoods) with generated contents/ids/request orders; wire-only oracle with own hex/LE parser and own CRC-16/MODBUS; own Intel-HEX writer for the load round trip",
+        "The config response (type, version, B, C) and the served blocks are parsed from the emitted lines only and compared with the image: R[:len]=image, 0xFF padding <= one page, 16*B multiple of 128, CRC-16/MODBUS(R)=C, echo of type/version/index, nothing beyond B; orders ascending/descending/shuffled/with repetitions across 1-3 nodes.",
+        "Trusted: vf/ref/ota.py (CRC checked against the published check value 0x4B37), vf/ihex.py. For images > 4 KiB away from boundaries only first/last/sampled blocks are fetched.",
+        "DESIGN.md §2 C09",
+    ),
+    "C17": (
+        "exploration",
+        "Hypothesis generation of prefixes constructed from the message's own levels, payloads with separators, topic mutations; round-trip oracle publish->mirror->recv; structural acceptance oracle (rsplit); subscription COVERAGE by an own MQTT filter matcher over presentation histories and restored states; raising callbacks injected",
+        "64k (thorough 320k) generated cases; the map/accept part compares with a specification written as topic.rsplit('/', 5); the subscription part checks that every topic that must be receivable is matched by some subscribed filter, so different but covering filters stay green. Found F5, F6 on the pinned tree.",
+        "Trusted: MQTT '+'/'#' semantics in the harness; poll thread replaced by the harness pump.",
+        "DESIGN.md §2 C17",
+    ),
+    "C18": (
+        "exploration",
+        "exhaustive enumeration of six classes x all option subsets and of the 260-string version grid, plus Hypothesis junk versions; behavioural observation through probe frames and fake dial functions against an independent numeric floor rule",
+        "All 768 constructor option subsets are built and each supplied option observed at its effect (callback, file at path/format, dial arguments and sleep interval, transport attributes, MQTT topic/retain); every grid version string is checked on the gateway side and on the node side. Found F12, F13, F17 on the pinned tree.",
+        "Trusted: fake dial/sleep functions substituted in mysensors.gateway_serial/gateway_tcp; version strings mixing digits with other text are not pinned and only required not to raise.",
+        "DESIGN.md §2 C18",
+    ),
 }
 
 NOT_YET = {}
